@@ -18,13 +18,16 @@ ASSUMPTIONS = [
     "output-clock edge is not judged (ambiguous), an asynchronous assertion coincident with one is.",
     "Async/Reset synchroniser output is judged from the first assertion onwards (power-on state is not in the statement).",
     "PulseSynchronizer runs that break the stated precondition (no output edge strictly between two input pulses) are not judged.",
+    "FFSynchronizer under a reset of its output domain (pulsed at arbitrary instants, in its own step): with reset_less=False "
+    "every stage returns to the initial value at each output edge at which the reset is asserted and refills afterwards (the "
+    "output shows the initial value for `stages` edges again); with reset_less=True (default) the reset has no effect.",
 ]
 COMPONENTS = {"real": ["amaranth.lib.cdc.FFSynchronizer", "AsyncFFSynchronizer", "ResetSynchronizer", "PulseSynchronizer",
                        "amaranth.hdl elaboration (incl. private async_ff domain, RequirePosedge)", "amaranth.sim"],
               "stub": ["PermSet scheduler seam", "clock / async-input driver (bus wrapper)",
                        "shift-register, release-count and pulse-count models"]}
 EXPECTED_PROBES = ("coincide", "stall", "ratio", "glitch-in", "inactive", "async_short_pulse", "reassert_during_release",
-                   "released", "pulses", "back_to_back_pulses")
+                   "released", "pulses", "back_to_back_pulses", "reset", "ff_reset_applied", "ff_reset_ignored_reset_less")
 
 PW = [(0.5,), (0.15,), (0.85,), (1.0,)]
 
@@ -90,6 +93,8 @@ def gen_case(seed, tier):
                       reset_less=cfg.random() < 0.7)
         levels = {"o": 0, "x": 0}
         p_set = wl.choice([0.2, 0.5, 0.9, 1.5])
+        p_rst = fl.choice([0, 0, 0.03, 0.1])
+        rlevel = 0
         for which in _clock_walk(wl, fl, ("o", "x"), nsteps, levels):
             r = p_set
             while wl.random() < r:       # possibly several input changes between two edges (glitch-in)
@@ -100,6 +105,11 @@ def gen_case(seed, tier):
                 levels[nme] ^= 1
                 ch[nme] = levels[nme]
             steps.append({"k": "ev", "l": ch})
+            # the output domain's (synchronous) reset, pulsed at arbitrary instants: a resettable synchroniser returns to its
+            # initial value at the next output edge and refills; a reset-less one (the default) must ignore it
+            if p_rst and fl.random() < p_rst:
+                rlevel ^= 1
+                steps.append({"k": "ev", "l": {"r": rlevel}})
     elif kind in ("async", "reset"):
         config.update(async_edge=cfg.choice(["pos", "neg"]) if kind == "async" else "pos")
         # the primitive needs a rising-edge output domain and must refuse a falling-edge one wherever it is defined, e.g.
@@ -356,6 +366,8 @@ def run_case(case):
             lv[d["name"]] = 0
         if extra_lines:
             lv["a"] = 0
+        if kind == "ff":
+            lv["r"] = 0
         i_val = 0
         sets_since = 0
         same = [None, 0]
@@ -414,6 +426,9 @@ def run_case(case):
                     if nme == "a":
                         changes["a"] = lvl
                         a_change = lvl
+                    elif nme == "r":
+                        changes["o.rst"] = lvl
+                        stats["faults"]["reset"] = stats["faults"].get("reset", 0) + 1
                     else:
                         changes[nme + ".clk"] = lvl
                         clk_changes += 1
@@ -442,7 +457,13 @@ def run_case(case):
                     if edge.get("x") and not o_edge:
                         stats["faults"]["inactive"] += 1
                     if o_edge:
-                        sr = [i_val] + sr[:-1]
+                        if lv.get("r") and not config["reset_less"]:
+                            sr = [config.get("init", 0)] * stages
+                            P["ff_reset_applied"] = P.get("ff_reset_applied", 0) + 1
+                        else:
+                            if lv.get("r"):
+                                P["ff_reset_ignored_reset_less"] = P.get("ff_reset_ignored_reset_less", 0) + 1
+                            sr = [i_val] + sr[:-1]
                         sets_since = 0
                 elif kind in ("async", "reset"):
                     now_asserted = asserted
